@@ -122,18 +122,27 @@ def calls_for(base, oname, level):
             for oc in itertools.permutations(oin, r):
                 for tc in itertools.product(labs, repeat=r):
                     out.append(['connect_circuit', oname, list(tc), list(oc), False, name, pref])
-        for r in range(1, min(len(ins), 2) + 1):
+        for r in range(1, min(len(ins), 3) + 1):
             for tc in itertools.permutations(ins, r):
+                if r == 3 and list(tc) != sorted(tc):
+                    continue  # three connectors: one order of the base inputs, every tuple of attached gates
                 for oc in itertools.product(ogates, repeat=r):
                     out.append(['connect_circuit', oname, list(tc), list(oc), True, name, pref])
         for tc in itertools.product(labs, repeat=len(oin)):
             out.append(['connect_left', oname, list(tc), name, pref])
-        if len(ins) <= 2:
+        if len(ins) <= 3:
             for oc in itertools.product(ogates, repeat=len(ins)):
                 out.append(['connect_right', oname, list(oc), name, pref])
         out.append(['connect_inputs', oname, name, pref])
         out.append(['extend_circuit', oname, False, name, pref])
         out.append(['extend_circuit', oname, True, name, pref])
+        # explicit connector lists, including explicitly empty ones (k = 0 of a partial list)
+        out.append(['extend_circuit_x', oname, [], [], False, name, pref])
+        out.append(['extend_circuit_x', oname, [], [], True, name, pref])
+        if labs and oin:
+            out.append(['extend_circuit_x', oname, [labs[-1]], [oin[0]], False, name, pref])
+        if ins:
+            out.append(['extend_circuit_x', oname, [ins[0]], [ogates[-1]], True, name, pref])
         out.append(['add_circuit', oname, name, pref])
     return out
 
@@ -156,6 +165,8 @@ def model_apply(base, op):
     if k == 'extend_circuit':
         tc, oc, right = wrapper_args('extend_right' if op[2] else 'extend_left', base, oth, None)
         return model_connect(base, oth, tc, oc, right, op[3], op[4])
+    if k == 'extend_circuit_x':
+        return model_connect(base, oth, op[2], op[3], op[4], op[5], op[6])
     if k == 'add_circuit':
         return model_connect(base, oth, [], [], False, op[2], op[3])
     raise KeyError(k)
@@ -246,7 +257,7 @@ def check_step(c, model, op, acc, case, feats):
     if _blocks_norm(got.blocks) != _blocks_norm(want.blocks) and not feats.get('repeated_right'):
         acc.violation(f'{op[0]}/blocks', case, f'got {got.blocks} expected {want.blocks}', feats)
     # block re-extraction gives back the attached circuit's function
-    name = {'connect_circuit': 5, 'connect_left': 3, 'connect_right': 3, 'connect_inputs': 2, 'extend_circuit': 3, 'add_circuit': 2}[op[0]]
+    name = {'extend_circuit_x': 5, 'connect_circuit': 5, 'connect_left': 3, 'connect_right': 3, 'connect_inputs': 2, 'extend_circuit': 3, 'add_circuit': 2}[op[0]]
     bname = op[name]
     if bname != '' and feats.get('dupfree', True):
         oth = history.other_net(oname)
@@ -265,7 +276,7 @@ def check_step(c, model, op, acc, case, feats):
 
 def _repeated_right(op, base):
     k = op[0]
-    if k == 'connect_circuit' and op[4]:
+    if k in ('connect_circuit', 'extend_circuit_x') and op[4]:
         return len(set(op[3])) != len(op[3])
     if k == 'connect_right':
         return len(set(op[2])) != len(op[2])
@@ -278,7 +289,7 @@ def _repeated_right(op, base):
 def _dupfree(op, base=None):
     """Connector lists of the resolved connect_circuit call are both duplicate-free."""
     k = op[0]
-    if k == 'connect_circuit':
+    if k in ('connect_circuit', 'extend_circuit_x'):
         return len(set(op[2])) == len(op[2]) and len(set(op[3])) == len(op[3])
     if k in ('connect_left', 'connect_right'):
         return len(set(op[2])) == len(op[2])
@@ -298,7 +309,7 @@ def check_base(n, gates, outs, acc, level, depth2, others=OTHERS, only=None):
             acc.states += 1
             c = space.build(n, gates, outs)
             case = lambda: {**space.spec_json(n, gates, outs), 'ops': [op]}  # noqa: E731
-            feats = {'right': bool(op[0] == 'connect_circuit' and op[4]) or op[0] in ('connect_right', 'connect_inputs') or (op[0] == 'extend_circuit' and op[2]),
+            feats = {'right': bool(op[0] in ('connect_circuit', 'extend_circuit_x') and op[4]) or op[0] in ('connect_right', 'connect_inputs') or (op[0] == 'extend_circuit' and op[2]),
                      'dupfree': _dupfree(op, base)}
             m1 = check_step(c, base, op, acc, case, feats)
             if m1 is None or not depth2:
@@ -322,7 +333,7 @@ def check_base(n, gates, outs, acc, level, depth2, others=OTHERS, only=None):
 
 def _rename_block(op, name):
     op = list(op)
-    idx = {'connect_circuit': 5, 'connect_left': 3, 'connect_right': 3, 'connect_inputs': 2, 'extend_circuit': 3, 'add_circuit': 2}[op[0]]
+    idx = {'extend_circuit_x': 5, 'connect_circuit': 5, 'connect_left': 3, 'connect_right': 3, 'connect_inputs': 2, 'extend_circuit': 3, 'add_circuit': 2}[op[0]]
     if op[idx] != '':
         op[idx] = name
     return op
@@ -333,6 +344,11 @@ def plan(tier):
     t.append({'n': 0, 'k': 0, 'prefix': [], 'pol': 'all', 'level': 'full', 'depth2': True})
     t.append({'n': 1, 'k': 0, 'prefix': [], 'pol': 'all', 'level': 'full', 'depth2': True})
     t.append({'n': 2, 'k': 0, 'prefix': [], 'pol': 'all', 'level': 'full', 'depth2': tier == 'thorough'})
+    t.append({'n': 3, 'k': 0, 'prefix': [], 'pol': 'last2', 'level': 'lite' if tier == 'quick' else 'full', 'depth2': False})
+    if tier == 'thorough':
+        for tk in space.tasks(3, 1, BASE_ALPHA, 1):
+            tk.update(pol='last2', level='lite', depth2=False)
+            t.append(tk)
     for tk in space.tasks(2, 1, BASE_ALPHA, 1):
         tk.update(pol='core', level='full', depth2=(tier == 'thorough'))
         t.append(tk)
@@ -356,11 +372,11 @@ def describe(tier):
         'rule': 'base circuit of F(n,k,{NOT,AND,GT,XOR}) x output policy x attached circuit (8: NOT, AND, 1-in/2-out with an '
         'output that is its input, block + dead gate, buffer, GT, two outputs, no inputs) x every call: connect_circuit left '
         '(every duplicate-free tuple of attached inputs incl. partial x every tuple of base gates incl. internal/repeated), '
-        'right (every duplicate-free tuple of base inputs x every tuple of attached gates), connect_left/right/inputs, '
-        'extend_circuit both directions, add_circuit x naming {no block, block+prefix, block without prefix}; depth2: a '
+        'right (every duplicate-free tuple of <=3 base inputs x every tuple of attached gates), connect_left/right/inputs, '
+        'extend_circuit both directions (default and explicit connector lists incl. explicitly empty ones), add_circuit x naming {no block, block+prefix, block without prefix}; depth2: a '
         'second composition on every result. Oracle: netlist-model composition (inputs, outputs, gate map, truth table, '
         'blocks), attached circuit unchanged, block re-extraction. distinct = distinct (call, result shape).',
-        'bounds': {'quick': 'bases F(<=2,<=1) with second composition on F(0,0),F(1,0),F(1,1); F(2,2) with outputs (last),(last,x0),() and block+prefix naming',
+        'bounds': {'quick': 'bases F(3,0) (three inputs, block+prefix naming), F(<=2,<=1) with second composition on F(0,0),F(1,0),F(1,1); F(2,2) with outputs (last),(last,x0),() and block+prefix naming',
                    'thorough': 'bases F(<=2,<=1) all with second composition; F(2,2) core policies, all namings'}[tier],
         'exhaustive': True,
         'assumptions': ['model_connect (this module) is the documented composition; for a repeated attached connector on '
